@@ -488,7 +488,7 @@ class Tr:
                 raise Unsupported(f"arguments of {ast.unparse(call.func)}")
             args = " " + self.error_of(call.args[0])          # an exception object handed on: its tag
         else:
-            args = "".join(" " + self.e(a) for a in call.args) if ent.get("args", True) else ""
+            args = "".join(" " + (self.raw(a) if ent.get("raw_args") and self.dotted(a) is not None else self.e(a)) for a in call.args) if ent.get("args", True) else ""
         ret = ent.get("ret")
         if tgt is None:
             pat = ent.get("bind", "_")
@@ -981,9 +981,20 @@ class Tr:
                 self.rename, self.types = saved
                 return (f"{ind}match ({self.e(s.iter)}).findSome? (fun {v} =>\n{body}) with\n{ind}| some r => r\n{ind}| none =>\n" + self.block(rest, ind + "  "))
             raise Unsupported("for loop shape")
+        if isinstance(s, ast.Try) and self.spec.get("quiet_try") and not s.orelse and not s.finalbody and s.handlers \
+                and all(ast.unparse(h.type) in self.spec["quiet_try"] for h in s.handlers if h.type is not None) and all(h.type is not None for h in s.handlers):
+            # `try: body except E: …` where nothing in the body raises E in the situation the function is called in (the spec says why):
+            # the body, then what follows
+            def falls_(b):
+                return not b or not isinstance(b[-1], (ast.Return, ast.Raise, ast.Continue, ast.Break))
+            return self.block(list(s.body) + (list(rest) if falls_(s.body) else []), ind)
         if (self.spec.get("try_calls") and isinstance(s, ast.Try) and not s.orelse and not s.finalbody and s.body and isinstance(s.body[0], ast.Assign)
-                and len(s.body[0].targets) == 1 and isinstance(s.body[0].targets[0], ast.Name) and isinstance(s.body[0].value, ast.Call)):
-            v0, x = s.body[0].value, s.body[0].targets[0].id
+                and len(s.body[0].targets) == 1 and isinstance(s.body[0].value, ast.Call)
+                and (isinstance(s.body[0].targets[0], ast.Name) or (isinstance(s.body[0].targets[0], ast.Tuple)
+                                                                      and all(isinstance(y, ast.Name) for y in s.body[0].targets[0].elts)))):
+            v0 = s.body[0].value
+            tgt0 = s.body[0].targets[0]
+            x = tgt0.id if isinstance(tgt0, ast.Name) else "(" + ", ".join(y.id for y in tgt0.elts) + ")"
             key = v0.func.attr if isinstance(v0.func, ast.Attribute) and self.dotted(v0.func) not in self.spec["try_calls"] else self.dotted(v0.func)
             ent = self.spec["try_calls"].get(key)
             if ent is None:
@@ -996,7 +1007,13 @@ class Tr:
             argstr = "".join(" " + self.e(a) for a in argv)
             # the statements after the call inside the try must not be able to raise into the handlers: plain returns / bindings only
             for st in s.body[1:]:
-                if not isinstance(st, (ast.Return, ast.Assign)) or self._has_raising_method(st):
+                if self.spec.get("try_rest_any"):
+                    # the spec vouches that the operations these statements call do not raise (they contain their own handlers)
+                    if self._has_raising_method(st) or any(isinstance(y, ast.Call) and (self.dotted(y.func) in self.spec["try_calls"]
+                                                                                        or (isinstance(y.func, ast.Attribute) and y.func.attr in self.spec["try_calls"]))
+                                                           for y in ast.walk(st)):
+                        raise Unsupported("a second raising call inside the try")
+                elif not isinstance(st, (ast.Return, ast.Assign)) or self._has_raising_method(st):
                     raise Unsupported("statements after the guarded call")
             got = [tuple(sorted(ast.unparse(e) for e in h.type.elts)) if isinstance(h.type, ast.Tuple) else (ast.unparse(h.type),) if h.type is not None else ("BaseException",)
                    for h in s.handlers]
@@ -1014,8 +1031,12 @@ class Tr:
                     hb = hb + list(rest)
                 arms.append(f"{ind}| {pat} =>\n" + self.block(hb, ind + "  "))
             self.rename, self.types, self.opaque = dict(saved[0]), dict(saved[1]), dict(saved[2])
-            self.types[x] = ent["rtype"]
-            self._bound = getattr(self, "_bound", set()) | {x}
+            if isinstance(tgt0, ast.Name):
+                self.types[x] = ent["rtype"]
+                self._bound = getattr(self, "_bound", set()) | {x}
+            else:
+                for y, t_ in zip(tgt0.elts, ent["rtype"]):
+                    self.types[y.id] = t_
             okb = list(s.body[1:])
             if not okb or not isinstance(okb[-1], (ast.Return, ast.Raise, ast.Continue, ast.Break)):
                 okb = okb + list(rest)
@@ -1679,6 +1700,36 @@ SPECS = [
          errors={"Response header too long": "\"headerTooLong\"", "Response body exceeds maximum size": "\"tooBig\""},
          world_ops={"self._set_error": dict(fn="Cl.setError", ret=None, error_arg=True), "self.transport.close": dict(fn="Cl.closeTransport", ret=None),
                     "self._parse_header": dict(fn="Cl.parseHeader", ret=None)}),
+    dict(name="handleGeminiRequest", file="server/protocol.py", cls="GeminiServerProtocol", func="_handle_gemini_request", state="s", thread="s", implicit_return=True,
+         header="def handleGeminiRequest (E : Srv.DispEnv) (s : Srv.PState) (url : List Char) : Srv.PState × Unit :=", state_type="Srv.PState",
+         try_except=True, decode_utf8="-", raising_calls={"GeminiRequest.from_line": ("E.geminiFromLine", "ValueError", "obj")},
+         # `asyncio.create_task` raises RuntimeError only without a running loop; protocol callbacks run inside the loop
+         quiet_try=("RuntimeError",),
+         skip_src=("client_cert = ", "client_cert_fingerprint", "if client_cert:", "request.client_cert", "client_ip = ", "task.add_done_callback("),
+         rename={"self.middleware": "E.mw", "StatusCode.BAD_REQUEST": "59"},
+         types={"self.middleware": "bool", "self._request_dispatched": "bool", "url": "str", "e": "str"},
+         funcs={"str": ""},
+         world_ops={"self._send_error_response": dict(fn="E.sendError", ret=None), "self._route_request": dict(fn="E.route", ret=None, args=False),
+                    "asyncio.create_task": dict(fn="E.startMwG", ret="obj", args=False)}),
+    dict(name="processTitanUpload", file="server/protocol.py", cls="GeminiServerProtocol", func="_process_titan_upload", state="s", thread="s", implicit_return=True,
+         header="def processTitanUpload (E : Srv.DispEnv) (s : Srv.PState) : Srv.PState × Unit :=", state_type="Srv.PState",
+         quiet_try=("RuntimeError",),
+         skip_src=("client_ip = ", "request = self.titan_request", "task.add_done_callback("),
+         rename={"self.middleware": "E.mw", "self.upload_handler": "E.upload", "StatusCode.TEMPORARY_FAILURE": "40"},
+         types={"self.middleware": "bool", "self.upload_handler": "bool", "self._request_dispatched": "bool", "self.awaiting_titan_content": "bool",
+                "self.titan_request": "optobj"},
+         truthy_objs=("self.titan_request",),
+         world_ops={"self._send_error_response": dict(fn="E.sendError", ret=None), "self._start_titan_upload": dict(fn="E.startUpload", ret=None, args=False),
+                    "asyncio.create_task": dict(fn="E.startMwT", ret="obj", args=False)}),
+    dict(name="handleMwResult", file="server/protocol.py", cls="GeminiServerProtocol", func="_handle_middleware_result", state="s", thread="s", implicit_return=True,
+         header="def handleMwResult (E : Srv.MwEnv) (titan : Bool) (s : Srv.PState) : Srv.PState × Unit :=", state_type="Srv.PState",
+         try_calls={"result": dict(fn="E.taskResult", nargs=0, handlers=[(("Exception", "asyncio.CancelledError"), ".error _")], rtype=("bool", "optstr"))},
+         try_rest_any=True,
+         opaque={"isinstance(request, TitanRequest)": "titan"}, types={"isinstance(request, TitanRequest)": "bool"},
+         rename={"StatusCode.TEMPORARY_FAILURE": "40"},
+         world_ops={"self._send_error_response": dict(fn="E.sendError", ret=None), "self._route_request": dict(fn="E.route", ret=None, args=False),
+                    "self._start_titan_upload": dict(fn="E.startUpload", ret=None, args=False),
+                    "self._send_middleware_rejection": dict(fn="E.reject", ret=None, raw_args=True)}),
     dict(name="pumpResponse", file="server/protocol.py", cls="GeminiServerProtocol", func="_pump_response", state="s", thread="s", implicit_return=True,
          header="def pumpResponse (s : Srv.Flow.FSt) : Srv.Flow.FSt × Unit :=", state_type="Srv.Flow.FSt",
          loops=("", "", "s.unsent.length"),
@@ -1783,6 +1834,8 @@ PRELUDE = {
     "uploadGate": ([], []),
     "followRedirects": (["NauyacaVerif.Cl.Redirect"], []),
     "dataReceived": (["NauyacaVerif.Srv.PState"], []),
+    "handleMwResult": (["NauyacaVerif.Srv.PState"], []),
+    "handleGeminiRequest": (["NauyacaVerif.Srv.PState"], []), "processTitanUpload": (["NauyacaVerif.Srv.PState"], []),
     "staticHandle": (["NauyacaVerif.Fs.StaticPy"], []),
     "pumpResponse": (["NauyacaVerif.Srv.FlowPy"], []), "resumeWriting": (["NauyacaVerif.Srv.FlowPy", "NauyacaVerif.Gen.Fn.PumpResponse"], []),
     "pauseWriting": (["NauyacaVerif.Srv.FlowPy"], []), "sendResponse": (["NauyacaVerif.Srv.FlowPy", "NauyacaVerif.Gen.Fn.PumpResponse"], []), "connectionLost": (["NauyacaVerif.Srv.FlowPy"], []),
